@@ -252,6 +252,17 @@ fn template(t: &mut Tape) -> (tir::Tx, BTreeMap<String, Type>) {
     let mut metadata = vec![];
     for (n, ty) in pool.iter() {
         if t.chance(2, 3) {
+            // an IR a client sends may spell its parameters any way it likes (the language lower-cases
+            // them, other producers need not): the request keys are matched as declared
+            let n = &match t.weighted(&[5, 1, 1, 1]) {
+                0 => n.to_string(),
+                1 => n.to_uppercase(),
+                2 => {
+                    let mut c = n.chars();
+                    c.next().map(|f| f.to_uppercase().collect::<String>() + c.as_str()).unwrap_or_default()
+                }
+                _ => n.replace('_', "").replacen("a", "A", 1),
+            };
             declared.insert(n.to_string(), ty.clone());
             let e = tir::Expression::EvalParam(Box::new(tir::Param::ExpectValue(n.to_string(), ty.clone())));
             if t.flag() {
